@@ -69,6 +69,10 @@ def replay(pid, path):
     with open(path) as f:
         rec = json.load(f)
     print("replay of %s obligation %s (%s)" % (rec["property"], rec["obligation"], rec["backend"]))
+    if rec["backend"].startswith("native/"):
+        from . import standin
+        rec["_path"] = path
+        return standin.replay(pid, rec)
     if rec.get("playback"):
         try:
             confirmed, out = run_playback(rec)
